@@ -54,7 +54,9 @@ Proof. exact interrupted_queue. Qed.
 (* ... hence, from the empty queue, the interrupted message satisfies the predicate of C01_message *)
 Theorem C01_interrupted_message : forall ps chan typ pkgs st,
   9 <= ps <= 65535 -> 0 <= chan < 65536 -> 0 <= tnr st < 256 -> tq st = empty_pq -> payload_of (map fst pkgs) <> [] ->
-  exists outs st', send_message_b ps chan typ pkgs st = Some (outs, st') /    tx_ok ps typ chan (tnr st) (payload_of (map fst pkgs)) outs = true /    tq st' = empty_pq /\ tnr st' = (if 0 <? chan then (tnr st + zlen outs) mod 256 else tnr st).
+  exists outs st', send_message_b ps chan typ pkgs st = Some (outs, st') /\
+    tx_ok ps typ chan (tnr st) (payload_of (map fst pkgs)) outs = true /\
+    tq st' = empty_pq /\ tnr st' = (if 0 <? chan then (tnr st + zlen outs) mod 256 else tnr st).
 Proof. exact interrupted_message_ok. Qed.
 
 (* the budgeted definitions with live contexts are the fault-free ones *)
@@ -66,12 +68,14 @@ Proof. exact send_message_b_live. Qed.
    queued), one more byte with a context that dies after one packet (error again), then the flush *)
 Example C01_interrupted_example :
   match queue_package_b 12 1 3 [[1; 2]; [3; 4]; [5; 6; 7; 8; 9]] {| tq := empty_pq; tnr := 255 |} (Some 0%nat) with
-  | Some (o, st1, e) => o = [] /\ e = true /\ npk (tq st1) = 3 /      match queue_package_b 12 1 3 [[10]] st1 (Some 1%nat) with
+  | Some (o, st1, e) => o = [] /\ e = true /\ npk (tq st1) = 3 /\
+      match queue_package_b 12 1 3 [[10]] st1 (Some 1%nat) with
       | Some (o2, st2, e2) => o2 = [[3; 0; 0; 12; 0; 1; 255; 0; 1; 2; 3; 4]] /\ e2 = true /\ npk (tq st2) = 2
       | None => False
       end
   | None => False
-  end /  match send_message_b 12 1 3 [([[1; 2]; [3; 4]; [5; 6; 7; 8; 9]], Some 0%nat); ([[10]], Some 1%nat)] {| tq := empty_pq; tnr := 255 |} with
+  end /\
+  match send_message_b 12 1 3 [([[1; 2]; [3; 4]; [5; 6; 7; 8; 9]], Some 0%nat); ([[10]], Some 1%nat)] {| tq := empty_pq; tnr := 255 |} with
   | Some (outs, st') => outs = [[3; 0; 0; 12; 0; 1; 255; 0; 1; 2; 3; 4]; [3; 0; 0; 12; 0; 1; 0; 0; 5; 6; 7; 8]; [3; 1; 0; 10; 0; 1; 1; 0; 9; 10]] /\ tnr st' = 2
   | None => False
   end.
